@@ -1,4 +1,4 @@
-// Command drive runs the REAL pandora code (built from /repo's working tree,
+// Package drv is the correspondence-driver framework: a driver runs the REAL pandora code (built from /repo's working tree,
 // build tag verif) on corpus + generated cases of one property and writes
 //
 //	<out>/cases.tsv   caseid \t input \t implementation-observation
@@ -9,7 +9,7 @@
 // Lean driver (lean/Main.lean) reads the same lines, computes the model's
 // observation from the input and evaluates the executable Spec on the
 // implementation's observation.
-package main
+package drv
 
 import (
 	"bufio"
@@ -42,18 +42,14 @@ type Prop struct {
 	Rule    string
 }
 
-var registry = map[string]*Prop{}
+// RepoDir is the pandora source tree the binary was built from (for drivers that read files or build main.go).
+var RepoDir = "/repo"
 
-func register(p *Prop) { registry[p.ID] = p }
+// Tier is the tier of the current run ("quick" | "thorough").
+var Tier = "quick"
 
-var repoDir = "/repo"
-
-func main() {
-	if len(os.Args) < 2 {
-		fmt.Fprintln(os.Stderr, "usage: drive <PROP> [-tier quick|thorough] [-seed N] [-out DIR] [-in FILE] [-corpus FILE]")
-		os.Exit(2)
-	}
-	id := os.Args[1]
+// Main is the entry point of every cmd/cNN driver binary.
+func Main(p *Prop) {
 	fs := flag.NewFlagSet("drive", flag.ExitOnError)
 	tier := fs.String("tier", "quick", "")
 	seed := fs.Int64("seed", 1, "")
@@ -61,13 +57,9 @@ func main() {
 	in := fs.String("in", "", "run exactly the inputs listed in this file (replay)")
 	corpus := fs.String("corpus", "", "corpus file, one input per line, run first")
 	repo := fs.String("repo", "/repo", "")
-	_ = fs.Parse(os.Args[2:])
-	repoDir = *repo
-	p, ok := registry[id]
-	if !ok {
-		fmt.Fprintln(os.Stderr, "no driver for", id)
-		os.Exit(2)
-	}
+	_ = fs.Parse(os.Args[1:])
+	RepoDir = *repo
+	Tier = *tier
 	var inputs []string
 	nCorpus := 0
 	if *in != "" {
@@ -115,7 +107,7 @@ func main() {
 	classes := map[string]int{}
 	distinct := map[string]bool{}
 	for i := range inputs {
-		fmt.Fprintf(w, "%d\t%s\t%s\n", i, clean(inputs[i]), clean(obs[i]))
+		fmt.Fprintf(w, "%d\t%s\t%s\n", i, Clean(inputs[i]), Clean(obs[i]))
 		c := ""
 		if p.Class != nil {
 			c = p.Class(inputs[i], obs[i])
@@ -132,7 +124,7 @@ func main() {
 	var samples []any
 	step := len(inputs)/6 + 1
 	for i := 0; i < len(inputs); i += step {
-		samples = append(samples, map[string]string{"input": trunc(inputs[i], 400), "impl": trunc(obs[i], 400)})
+		samples = append(samples, map[string]string{"input": Trunc(inputs[i], 400), "impl": Trunc(obs[i], 400)})
 	}
 	keys := make([]string, 0, len(classes))
 	for k := range classes {
@@ -156,7 +148,7 @@ func runGuarded(p *Prop, input string, timeout time.Duration) (obs string) {
 	go func() {
 		defer func() {
 			if r := recover(); r != nil {
-				done <- "PANIC " + clean(fmt.Sprint(r)) + " @ " + clean(firstFrames(string(debug.Stack())))
+				done <- "PANIC " + Clean(fmt.Sprint(r)) + " @ " + Clean(firstFrames(string(debug.Stack())))
 			}
 		}()
 		done <- p.Run(input)
@@ -203,22 +195,22 @@ func readLines(path string) []string {
 	return out
 }
 
-func clean(s string) string {
+func Clean(s string) string {
 	s = strings.ReplaceAll(s, "\t", " ")
 	s = strings.ReplaceAll(s, "\n", " ")
 	s = strings.ReplaceAll(s, "\r", " ")
 	return s
 }
 
-func trunc(s string, n int) string {
+func Trunc(s string, n int) string {
 	if len(s) > n {
 		return s[:n] + "…"
 	}
 	return s
 }
 
-// kv parses "k=v k2=v2" tokens.
-func kv(input string) map[string]string {
+// KV parses "k=v k2=v2" tokens.
+func KV(input string) map[string]string {
 	m := map[string]string{}
 	for _, t := range strings.Fields(input) {
 		if i := strings.IndexByte(t, '='); i >= 0 {
